@@ -259,7 +259,7 @@ Proof.
   { unfold erroneous in Herr. rewrite Ht, Hb in Herr. apply orb_false_iff in Herr. exact Herr. }
   destruct Hdc as [Hdc Hnm].
   rewrite (step_cmd cfg s c msg o TClose cs Hl Ht).
-  set (s0 := set_log s [LFrame c (FAck (m_id msg)) (is_clean s)]).
+  set (s0 := set_log s [LFrame c (FAck (m_id msg)) (is_clean s) (now s)]).
   assert (Hc0 : conn_of s0 c = cs) by (unfold conn_of, s0; cbn [conns set_log]; rewrite Hl; reflexivity).
   rewrite (dispatch_bound cfg c TClose msg o s0 a side)
     by (try discriminate; rewrite Hc0; exact Hb).
